@@ -1,6 +1,6 @@
 (* C17 — Scanning recovers the written tokens with exact source positions.
    Theorems only: each is closed by [exact] of a lemma proved under Proofs/. *)
-From Tpl Require Import Html.Scan Html.Code Proofs.ScanSpec Proofs.ScanConcat Proofs.ScanPos Proofs.ScanAttrPos Proofs.CodeConcat.
+From Tpl Require Import Html.Scan Html.Code Proofs.ScanSpec Proofs.ScanConcat Proofs.ScanPos Proofs.ScanAttrPos Proofs.CodeConcat Proofs.PrintScanDefs Proofs.PrintScan.
 
 (* Every token starts where the previous one ended (the first at 1:1) and ends at
    pos_after(start, value), tab = 4 columns: for every source, raw-text list, prefix, Unicode table. *)
@@ -40,6 +40,24 @@ Theorem code_concat : forall (compile : pos -> str -> bool) (start : pos) (src :
                (k_mode (fold_left (cstep compile) src (cinit start)) <> CDone -> rest = []).
 Proof. exact CodeConcat.cscan_concat_strong. Qed.
 Print Assumptions code_concat.
+
+(* "Scanning the printed form of any sequence of markup tokens recovers that sequence": for every sequence of written
+   tokens (text, comment, CDATA, tags with value-less / quoted / unquoted attributes; [wf_wtoks] states what can be
+   written at all: e.g. a text contains no '<', a quoted value does not contain its quote, a comment body no '-->'),
+   scanning its print succeeds and yields exactly these kinds, names / contents, attribute names and raw values, in order.
+   Raw-text elements (script, style, ...) are outside this theorem (their content is covered by scan_concat and by the
+   token-sequence stream of the correspondence check). *)
+Theorem print_scan : forall (is_space : rune -> bool) (to_lower : rune -> rune) (text_tags : list str) (attr_prefix : str) (compile : attr -> bool),
+  oracle_ok is_space ->
+  forall ws, wf_wtoks is_space to_lower text_tags attr_prefix compile ws ->
+  exists toks, scan is_space to_lower text_tags attr_prefix compile (print_wtoks ws) = inl toks /\
+               map shape_of toks = map shape_of_w ws.
+Proof. exact PrintScan.print_scan. Qed.
+Print Assumptions print_scan.
+(* non-vacuity of print_scan: a seven-token sequence with every form satisfies wf_wtoks (PrintScan.ex_wf) *)
+Theorem print_scan_nonvacuous : exists is_space to_lower text_tags attr_prefix compile ws,
+  oracle_ok is_space /\ wf_wtoks is_space to_lower text_tags attr_prefix compile ws /\ length ws = 7%nat.
+Proof. exact PrintScan.print_scan_nonvacuous. Qed.
 
 (* Non-vacuity: a concrete multi-line document with a raw-text element scans successfully. *)
 Example scan_example :
